@@ -138,6 +138,6 @@ func checkC12(p *Program, r *Report) {
 			}
 		}
 	}
-	r.Floor("R12.1", "nil array arguments between kernels", n, 3)
+	r.Floor("R12.1", "nil array arguments between kernels", n, 1)
 	checkMassBalance(p, r)
 }
